@@ -79,9 +79,11 @@ fn relation_structure<R: Relation>(name: &str, rel: &R, samples: Vec<(R::Instanc
                     );
                 }
                 if let Some((idx, a, b)) = first_trace_divergence(&base.0, &trace) {
+                    let ctx_a: Vec<String> = normalise_trace(&base.0).iter().skip(idx.saturating_sub(3)).take(8).map(|e| e.describe()).collect();
+                    let ctx_b: Vec<String> = normalise_trace(&trace).iter().skip(idx.saturating_sub(3)).take(8).map(|e| e.describe()).collect();
                     rep.violation(
                         &format!("C09/{name}/structure-depends-on-witness"),
-                        &format!("structural trace differs at event {idx}: unknown: {a} | concrete: {b}"),
+                        &format!("structural trace differs at event {idx}: unknown: {a} | concrete: {b}; context unknown={ctx_a:?} concrete={ctx_b:?}"),
                         json!({"relation": name, "sample": i, "event_index": idx, "unknown": a, "concrete": b}),
                     );
                 } else {
@@ -202,7 +204,7 @@ mod c09_catalogue {
     use super::*;
 
     pub fn run(ctx: &Ctx, rep: &mut Report) -> usize {
-        let entries = entry::catalogue_for_structure(ctx.tier == Tier::Thorough);
+        let entries = cat::catalogue_for_structure(ctx.tier == Tier::Thorough);
         let mut n = 0;
         for (entry, inputs) in entries {
             structure_check(&entry, &inputs, 8, "C09", rep);
